@@ -195,4 +195,187 @@ example : (runLoop ⟨Gen.Syntax.table, Gen.Tags.cfg, recOps⟩ sample 40 m0).1.
     [.tag ⟨0, ⟨0, 18⟩, .startTag ⟨1,2⟩ (NameHash.ofBytes [97]) .html
       [⟨⟨3,4⟩,⟨5,6⟩,⟨3,6⟩⟩, ⟨⟨7,8⟩,⟨10,13⟩,⟨7,14⟩⟩, ⟨⟨15,16⟩,⟨16,16⟩,⟨15,16⟩⟩] true⟩] := by decide +kernel
 
+/-! ## C16_lookup — `get_attribute` / `has_attribute` / `attributes()` / `tag_name()` on the token -/
+
+open LolHtml.Model.AttrsApi
+
+/-- the validator of the SETTER (`Attribute::name_from_string`), which the lookups apply to the query -/
+def QueryAccepted (q : Bytes) : Prop := nameFromString (asciiLowerBytes q) ≠ none
+
+theorem queryAccepted_iff (q : Bytes) :
+    QueryAccepted q ↔ q ≠ [] ∧ ∀ b ∈ q, asciiLower b ∉ Gen.Consts.attrNameReject := by
+  unfold QueryAccepted nameFromString
+  cases q with
+  | nil => simp [asciiLowerBytes]
+  | cons c cs =>
+    simp only [asciiLowerBytes, List.map_cons, List.isEmpty_cons, Bool.false_eq_true, if_false, ne_eq,
+      reduceCtorEq, not_false_eq_true, true_and]
+    split
+    · rename_i h
+      simp only [List.any_eq_true, List.contains_iff_mem] at h
+      obtain ⟨x, hx, hr⟩ := h
+      simp only [not_true_eq_false, false_iff]
+      intro hall
+      rcases List.mem_cons.mp hx with rfl | hx'
+      · exact hall c (List.mem_cons_self) hr
+      · obtain ⟨y, hy, rfl⟩ := List.mem_map.mp hx'
+        exact hall y (List.mem_cons_of_mem _ hy) hr
+    · rename_i h
+      simp only [List.any_eq_true, List.contains_iff_mem, not_exists, not_and] at h
+      simp only [reduceCtorEq, not_false_eq_true, true_iff]
+      intro b hb
+      rcases List.mem_cons.mp hb with rfl | hb'
+      · exact h _ (List.mem_cons_self)
+      · exact h _ (List.mem_cons_of_mem _ (List.mem_map.mpr ⟨b, hb', rfl⟩))
+
+/-- **C16_lookup.** For a query the validator accepts, `get_attribute` returns the value of the FIRST
+attribute whose name equals the query ASCII-case-insensitively (`none` if there is none) and
+`has_attribute` says whether there is one. -/
+theorem C16_lookup (attrs : AttrList) (q : Bytes) (hq : QueryAccepted q) :
+    getAttribute attrs q = (attrs.find? fun a => eqIgnoreAsciiCase a.1 q).map (·.2.1) ∧
+    hasAttribute attrs q = attrs.any fun a => eqIgnoreAsciiCase a.1 q := by
+  unfold QueryAccepted at hq
+  have hm : mapAttribute attrs q = attrs.find? fun a => eqIgnoreAsciiCase a.1 q := by
+    unfold mapAttribute
+    cases hn : nameFromString (asciiLowerBytes q) with
+    | none => exact absurd hn hq
+    | some name =>
+      have : name = asciiLowerBytes q := by
+        unfold nameFromString at hn
+        split at hn
+        · simp at hn
+        · split at hn
+          · simp at hn
+          · simpa using hn.symm
+      subst this
+      rfl
+  unfold getAttribute hasAttribute
+  rw [hm]
+  refine ⟨rfl, ?_⟩
+  clear hm
+  induction attrs with
+  | nil => rfl
+  | cons a as ih =>
+    simp only [List.find?_cons, List.any_cons]
+    cases eqIgnoreAsciiCase a.1 q <;> simp_all
+
+/-- duplicates: the first one wins, whatever follows -/
+theorem C16_lookup_first_duplicate (pre post : AttrList) (a : Bytes × Bytes × AttrOutline) (q : Bytes)
+    (hq : QueryAccepted q) (hpre : ∀ x ∈ pre, eqIgnoreAsciiCase x.1 q = false) (ha : eqIgnoreAsciiCase a.1 q = true) :
+    getAttribute (pre ++ a :: post) q = some a.2.1 := by
+  rw [(C16_lookup _ q hq).1]
+  induction pre with
+  | nil => simp [ha]
+  | cons x xs ih =>
+    have hx := hpre x (List.mem_cons_self)
+    simp only [List.cons_append, List.find?_cons, hx]
+    exact ih fun y hy => hpre y (List.mem_cons_of_mem _ hy)
+
+/-- `attributes()` lists every attribute of the token, in order, duplicates kept, with its exact
+value bytes; `tag_name()` is the lower-cased name -/
+theorem C16_attributes (attrs : AttrList) :
+    attributes attrs = attrs.map (fun a => (asciiLowerBytes a.1, a.2.1)) ∧
+    (attributes attrs).length = attrs.length ∧ attributesPreserveCase attrs = attrs.map (fun a => (a.1, a.2.1)) :=
+  ⟨rfl, by simp [attributes], rfl⟩
+
+theorem C16_tag_name (name : Bytes) : AttrsApi.tagName name = name.map asciiLower := rfl
+
+/-- the full-strength statement of C16's lookup clause: for EVERY query, the lookup finds the first
+attribute whose name matches case-insensitively -/
+def C16_lookup_statement : Prop :=
+  ∀ (attrs : AttrList) (q : Bytes), getAttribute attrs q = (attrs.find? fun a => eqIgnoreAsciiCase a.1 q).map (·.2.1)
+
+/-- **F8** (`<a =b>`): the token lists the attribute named `=b`, `get_attribute("=b")` is `None`,
+because the query goes through the setter's validator which rejects `=`. -/
+theorem C16_lookup_counterexample : ¬C16_lookup_statement := by
+  intro h
+  have := h [([61, 98], [], ⟨⟨3, 5⟩, ⟨5, 5⟩, ⟨3, 5⟩⟩)] [61, 98]
+  revert this
+  decide
+
+/-- and that token is what the lexer really produces for `<a =b>` -/
+example : (runLoop ⟨Gen.Syntax.table, Gen.Tags.cfg, recOps⟩ [60,97,32,61,98,62] 40 m0).1.x.sink =
+    [.tag ⟨0, ⟨0, 6⟩, .startTag ⟨1,2⟩ (NameHash.ofBytes [97]) .html [⟨⟨3,5⟩,⟨5,5⟩,⟨3,5⟩⟩] false⟩] := by decide +kernel
+
+example : QueryAccepted [72, 82, 69, 70] := by unfold QueryAccepted; decide     -- "HREF"
+example : ¬QueryAccepted [61, 98] := by unfold QueryAccepted; decide            -- "=b"
+
+/-! ## C16_context — `can_have_content`, `namespace_uri` -/
+
+/-- side-condition on the generated tag lists: the fast-path list of `is_void_element` (Div, A, Span,
+Li) is disjoint from the void list, so the fast path changes nothing -/
+theorem voidLists_gen : Gen.Tags.cfg.nonVoidFast.all (fun h => !Gen.Tags.cfg.void.contains h) = true := by decide +kernel
+
+/-- the void list of the code is the list of elements the standard's tree builder inserts and
+immediately pops: area base basefont bgsound br col embed hr img input keygen link meta param source
+track wbr (hashes of these names) -/
+theorem voidList_gen : Gen.Tags.cfg.void =
+    [[97,114,101,97], [98,97,115,101], [98,97,115,101,102,111,110,116], [98,103,115,111,117,110,100],
+     [98,114], [99,111,108], [101,109,98,101,100], [104,114], [105,109,103], [105,110,112,117,116],
+     [107,101,121,103,101,110], [108,105,110,107], [109,101,116,97], [112,97,114,97,109],
+     [115,111,117,114,99,101], [116,114,97,99,107], [119,98,114]].map NameHash.ofBytes := by decide +kernel
+
+/-- **C16_context (content).** In the HTML namespace an element can have content iff its name is not in
+the void list (names without a hash never are); in SVG / MathML iff the tag is not self-closing. -/
+theorem C16_context (cfg : TagCfg) (hfast : cfg.nonVoidFast.all (fun h => !cfg.void.contains h) = true)
+    (name : LocalName) (ns : Ns) (sc : Bool) :
+    canHaveContent cfg name ns sc =
+      match ns, name with
+      | .html, .hash h => !cfg.void.contains h
+      | .html, .bytes _ => true
+      | _, _ => !sc := by
+  unfold canHaveContent
+  cases ns <;> cases name <;> simp [isVoidElement]
+  rename_i h
+  intro hv
+  simp only [List.all_eq_true, Bool.not_eq_true'] at hfast
+  have := hfast h hv
+  simpa using this
+
+theorem C16_context_gen (name : LocalName) (ns : Ns) (sc : Bool) :
+    canHaveContent Gen.Tags.cfg name ns sc =
+      match ns, name with
+      | .html, .hash h => !Gen.Tags.cfg.void.contains h
+      | .html, .bytes _ => true
+      | _, _ => !sc :=
+  C16_context Gen.Tags.cfg voidLists_gen name ns sc
+
+/-- The namespace the standard's tree construction gives an element whose start tag is seen while the
+adjusted current node is in namespace `ns0` ("in body" for HTML: `svg` / `math` start their namespace;
+"in foreign content": a breakout tag is an HTML element, anything else — integration points such as
+`desc` included — is an element of `ns0`). -/
+def expectedNs (cfg : TagCfg) (ns0 : Ns) (h : Nat) : Ns :=
+  match ns0 with
+  | .html => if h == cfg.svg then .svg else if h == cfg.math then .mathml else .html
+  | ns0 => if cfg.foreignExit.contains h then .html else ns0
+
+/-- namespaces of the recorded tag lexemes -/
+def tagNamespaces (log : List Lexeme) : List Ns :=
+  log.filterMap fun
+    | .tag ⟨_, _, .startTag _ _ ns _ _⟩ => some ns
+    | _ => none
+
+/-- the full-strength statement of the namespace clause for `<svg><NAME>`: the second element is
+reported in the namespace the standard gives it -/
+def C16_namespace_statement : Prop :=
+  ∀ name : Bytes, name.all isAsciiAlpha = true → name ≠ [] →
+    tagNamespaces (runLoop ⟨Gen.Syntax.table, Gen.Tags.cfg, recOps⟩ ([60,115,118,103,62,60] ++ name ++ [62]) 200 m0).1.x.sink
+      = [.svg, expectedNs Gen.Tags.cfg .svg (NameHash.ofBytes name)]
+
+/-- **F9** (`<svg><desc>`): `emit_tag` stamps the lexeme with the simulator's namespace AFTER the tag's
+own feedback has been applied (proved in general as part of `C16_outline_recorded`: the namespace of
+the lexeme is `m'.x.sim.currentNs`), so the integration point `desc` is reported as XHTML; the standard
+(and html5ever) make it an SVG element. -/
+theorem C16_namespace_counterexample : ¬C16_namespace_statement := by
+  intro h
+  have := h [100, 101, 115, 99] (by decide) (by decide)
+  revert this
+  decide +kernel
+
+/-- what the code reports for `<svg><desc>` and for `<svg><g>` -/
+example : tagNamespaces (runLoop ⟨Gen.Syntax.table, Gen.Tags.cfg, recOps⟩ [60,115,118,103,62,60,100,101,115,99,62] 200 m0).1.x.sink
+    = [.svg, .html] := by decide +kernel
+example : tagNamespaces (runLoop ⟨Gen.Syntax.table, Gen.Tags.cfg, recOps⟩ [60,115,118,103,62,60,103,62] 200 m0).1.x.sink
+    = [.svg, .svg] := by decide +kernel
+
 end LolHtml.Thm.C16
